@@ -877,6 +877,10 @@ func genBranchVals(t *rapid.T, keys []string, enc string) []Hex {
 	pC := rapid.SampledFrom([]int{30, 70, 95, 99}).Draw(t, "pContinue")
 	pD := rapid.SampledFrom([]int{10, 50, 90}).Draw(t, "pDistinct")
 	headD := rapid.IntRange(0, 4).Draw(t, "headDistinct") // the first branches always get distinct values
+	// 'J' (C18-g): only the FIRST key of a branch continues the run of the branch
+	// before it, every other key of the branch is distinct — a run that crosses a
+	// sub-trie boundary by exactly one key
+	pJ := rapid.SampledFrom([]int{0, 0, 40, 80}).Draw(t, "pJoinHead")
 	seed := rapid.Uint64().Draw(t, "bseed")
 	rng := &sm64{seed}
 	payload := func(id uint64) Hex {
@@ -907,6 +911,8 @@ func genBranchVals(t *rapid.T, keys []string, enc string) []Hex {
 			switch {
 			case branch < headD:
 				mode = 'D'
+			case branch > 0 && rng.intn(100) < pJ:
+				mode = 'J'
 			case rng.intn(100) < pC:
 				mode = 'C'
 			case rng.intn(100) < pD:
@@ -920,6 +926,9 @@ func genBranchVals(t *rapid.T, keys []string, enc string) []Hex {
 			id++
 		}
 		vals[i] = payload(id)
+		if mode == 'J' {
+			mode = 'D' // from the second key of the branch on
+		}
 	}
 	return vals
 }
